@@ -230,6 +230,46 @@ func runAliasMode(seed int64, n int, tr *transcript) {
 					}
 				}
 				tr.stats["alias-calls"]++
+				// queries with keys the tree itself handed out (for []byte keys these may be views of its own
+				// storage), re-sliced shorter: read-only calls must leave the tree as it is
+				if step%5 == 4 {
+					before := safely(t.Dump)
+					var handed [][]byte
+					safely(func() string {
+						for k := range raw.All() {
+							handed = append(handed, k)
+							if len(handed) >= 4 {
+								break
+							}
+						}
+						if k, _, ok := raw.Minimum(); ok {
+							handed = append(handed, k)
+						}
+						if k, _, ok := raw.Maximum(); ok {
+							handed = append(handed, k)
+						}
+						return ""
+					})
+					for _, k := range handed {
+						if len(k) < 2 {
+							continue
+						}
+						q := k[:1+r.Intn(len(k)-1)]
+						safely(func() string { raw.Search(q); return "" })
+						safely(func() string {
+							for range raw.Prefix(q) {
+								break
+							}
+							return ""
+						})
+						tr.stats["alias-requeries"]++
+					}
+					if after := safely(t.Dump); after != before {
+						tr.emit(fmt.Sprintf("assert %d tree-unchanged-by-queries-with-handed-out-keys", id), "changed")
+					} else {
+						tr.emit(fmt.Sprintf("assert %d tree-unchanged-by-queries-with-handed-out-keys", id), "ok")
+					}
+				}
 				// whatever the caller did to old buffers, the tree's content is judged by the driver
 				if step%7 == 0 {
 					var got []kv
